@@ -41,6 +41,7 @@ def run(chk: Check) -> None:
     run_client_paths(chk, ix)
     run_handlers_flush_and_no_asserts(chk, ix)
     run_replies_are_ascii_safe(chk, ix)
+    run_engine_handlers(chk, ix)
 
     # ------------- R16.1
     r1 = chk.rule("R16.1", "every exception class that connection I/O or frame decoding may raise inside the serve loop is caught inside the loop by a handler that neither re-raises nor leaves the loop (intended exits identified structurally)", floor=4)
@@ -519,6 +520,12 @@ def run_handlers_flush_and_no_asserts(chk: Check, ix) -> None:
         par = f.module.parents()
         from ..cfg import branch_conditions
         for a in ast.walk(f.node):
+            if isinstance(a, ast.Assert) and isinstance(a.test, ast.Constant) and not a.test.value:
+                # `assert False` as the last arm of a chain over a client-supplied value
+                pos, neg = branch_conditions(par, f.node, a)
+                if any(({x.id for x in ast.walk(t) if isinstance(x, ast.Name)} & params) for t in pos + neg):
+                    bad = a
+                continue
             if isinstance(a, ast.Assert) and ({x.id for x in ast.walk(a.test) if isinstance(x, ast.Name)} & params):
                 # an assert that an earlier exit already guarantees (the same names tested and returned on) is fine
                 pos, neg = branch_conditions(par, f.node, a, early_exits=True)
@@ -550,3 +557,59 @@ def run_replies_are_ascii_safe(chk: Check, ix) -> None:
             r.ok(key, f.loc(c), "ensure_ascii=False, but serve() catches the encoding error around send()")
         else:
             r.violation(key, f.loc(c), "`ensure_ascii=False` lets a lone surrogate through to IPCBase.write's .encode('utf-8'): the UnicodeEncodeError is not an OSError, escapes the serve loop, the status file is removed and the daemon exits (request: an unknown command named 'frob\\ud800nicate', or a check of a file whose name has an undecodable byte)")
+
+
+def run_engine_handlers(chk: Check, ix) -> None:
+    """R16.11 / R16.12: the handlers that run an engine over the fine-grained manager."""
+    from ..cfg import CFG
+    srv = ix.cls("mypy.dmypy_server.Server")
+    r11 = chk.rule("R16.11", "a command handler that builds an engine over self.fine_grained_manager (suggest, inspect) lets it read and reprocess files through the daemon's FileSystemCache; like the handlers of R16.8 it passes flush_caches() on every path from a call of one of the engine's methods to the exit, exceptional exits included (a `finally` does), otherwise the first check after a later edit compares against stat results cached during the command and misses the edit", floor=2)
+    r12 = chk.rule("R16.12", "run_command() binds the request's keys to the handler's signature so that a malformed request gets an error reply; a handler with a `**kwargs` catch-all accepts every key there, so it binds them to the signature of the callee it forwards them to (inspect.signature(callee).bind(..., **kwargs) under `except TypeError`, or the forwarding call itself under `except TypeError`) before the call", floor=1)
+    n11 = n12 = 0
+    for name, f in sorted(srv.methods.items()):
+        if not name.startswith("cmd_"):
+            continue
+        g = CFG(f.node)
+        builds = [nd for nd in g.nodes if nd.kind == "stmt" and nd.stmt is not None and any(isinstance(c, ast.Call) and any(norm(a) == "self.fine_grained_manager" for a in c.args) and call_name(c) not in ("bind",) for c in nd.calls())]
+        if builds:
+            n11 += 1
+            key = f"{name}: flush_caches() on every path from the engine's use to the exit"
+            fl = [nd for nd in g.nodes if nd.stmt is not None and any(call_name(c) == "flush_caches" and norm(c.func).startswith("self.") for c in nd.calls())]
+            # the engine has read files once one of its methods ran: start from those calls
+            names = {t.id for b in builds if isinstance(b.stmt, ast.Assign) for t in b.stmt.targets if isinstance(t, ast.Name)}
+            uses = [nd for nd in g.nodes if nd.stmt is not None and nd.kind == "stmt" and any(isinstance(c.func, ast.Attribute) and isinstance(c.func.value, ast.Name) and c.func.value.id in names for c in nd.calls())]
+            bad = [b for b in (uses or builds) if not g.must_pass(b, [g.exit], fl, labels_excluded=())]
+            if not bad:
+                r11.ok(key, f.loc(builds[0].stmt))
+            else:
+                r11.violation(key, f.loc(bad[0].stmt), "the handler can return (or raise) after the engine ran without flush_caches(): stat/read results of the files the engine touched (inspect --force-reload, suggest) stay in the daemon's file system cache, and the next check after an edit does not see it")
+        kw = f.node.args.kwarg.arg if f.node.args.kwarg else None
+        if kw is None:
+            continue
+        par = f.module.parents()
+        for c in ast.walk(f.node):
+            if not (isinstance(c, ast.Call) and any(k.arg is None and norm(k.value) == kw for k in c.keywords)) or call_name(c) == "bind":
+                continue
+            n12 += 1
+            key = f"{name}: **{kw} is bound to {call_name(c)}'s signature before it is forwarded"
+            def catches_type_error(node) -> bool:
+                p, child = par[node], node
+                while p is not f.node:
+                    if isinstance(p, ast.Try) and child in p.body and any(h.type is None or any(t in norm(h.type) for t in ("TypeError", "Exception")) for h in p.handlers):
+                        return True
+                    child, p = p, par[p]
+                return False
+            ok = catches_type_error(c)
+            if not ok:
+                callee = call_name(c)
+                binds = [nd for nd in g.nodes if nd.stmt is not None and any(call_name(b) == "bind" and any(k.arg is None and norm(k.value) == kw for k in b.keywords) and callee in norm(b.func) and catches_type_error(b) for b in nd.calls())]
+                site = next((nd for nd in g.nodes if nd.stmt is not None and c in list(nd.calls())), None)
+                ok = bool(binds) and site is not None and g.must_pass(g.entry, [site], binds, labels_excluded=("exc",))
+            if ok:
+                r12.ok(key, f.loc(c))
+            else:
+                r12.violation(key, f.loc(c), f"`{norm(c)[:80]}` receives whatever keys the request carried: an unexpected or missing key raises TypeError inside the handler, which serve() treats as a daemon crash (reply 'Daemon crashed!', status file removed, exit)")
+    if n11 < 2:
+        raise AnalysisError(f"only {n11} handlers that build an engine over self.fine_grained_manager found (expected cmd_suggest and cmd_inspect)")
+    if n12 < 1:
+        raise AnalysisError("no handler forwarding **kwargs found (expected cmd_suggest)")
